@@ -439,6 +439,7 @@ def rule_termination(ctx, repo, eng):
     r.check(not cyc, 'recursion-free', entries[0].site, '%d functions reachable, no cycle' % len(graph), 'recursive cycle: %s' % (' -> '.join(cyc[0][-4:]) if cyc else ''))
     ctx.extra['reachable_functions'] = len(graph)
     rule_const_index(ctx, repo, graph)
+    rule_error_arity(ctx, repo, graph)
     # while loops
     n = 0
     for q in sorted(graph):
@@ -472,6 +473,57 @@ def rule_const_index(ctx, repo, graph):
                                      what='a short byte string from a script raises IndexError out of verification')
     if n == 0:
         r.undecided('instances', '', 'no constant index found (the confirmed tree has `sig[-1]` in _CheckSig)')
+
+
+def rule_error_arity(ctx, repo, graph):
+    """Every error object built on the verification path is built with arguments its class accepts: `err_raiser(Cls, a, b)`
+    constructs `Cls(a, b, **state)`, `raise Cls(a)` constructs Cls(a).  A positional argument the constructor has no
+    parameter for raises TypeError - not a ValidationError - in the middle of reporting a script failure."""
+    r = ctx.rule('C07.A1', 'every error constructed on the verification path matches the constructor of its class (positional arity, keyword names)', engine='RESOLVE', floor=20)
+    from ..model import ClassRef
+    for q in sorted(graph):
+        f = repo.functions.get(q)
+        if f is None or not f.module.relpath.startswith('bitcoin/'):
+            continue
+        for c in common.iter_calls(f.node):
+            cls_expr = None
+            args = kws = None
+            if norm(c.func) == 'err_raiser' and c.args:
+                cls_expr, args, kws = c.args[0], c.args[1:], [k.arg for k in c.keywords] + ['sop', 'sop_data', 'sop_pc', 'stack', 'scriptIn', 'txTo', 'inIdx', 'flags', 'altstack', 'vfExec', 'pbegincodehash', 'nOpCount']
+            elif isinstance(getattr(c, '_parent', None), ast.Raise) and c._parent.exc is c:
+                cls_expr, args, kws = c.func, c.args, [k.arg for k in c.keywords]
+            if cls_expr is None:
+                continue
+            v = repo.fold(cls_expr, f.module, cls=f.cls)
+            if not isinstance(v, ClassRef):
+                continue
+            if any(isinstance(a, ast.Starred) for a in args) or any(k is None for k in kws):
+                continue
+            init = repo.lookup_method(v.info, '__init__')
+            if init is None:
+                continue  # builtin exception constructor: any arguments
+            a_ = init.node.args
+            pos = [x.arg for x in a_.posonlyargs + a_.args][1:]
+            required = len(pos) - len(a_.defaults)
+            names = set(pos) | {x.arg for x in a_.kwonlyargs}
+            key = '%s:%s(%d)@%d' % (q.replace('bitcoin.core.', ''), v.info.name, len(args), c.lineno)
+            problems = []
+            if a_.vararg is None and len(args) > len(pos):
+                problems.append('%d positional argument(s) for a constructor that takes %d (%s)' % (len(args), len(pos), ', '.join(pos)))
+            if norm(c.func) != 'err_raiser' and len(args) + len([k for k in kws if k in pos]) < required:
+                problems.append('%d positional argument(s), %d required' % (len(args), required))
+            if norm(c.func) == 'err_raiser' and len(args) < len([p_ for p_ in pos[:required] if p_ not in kws]):
+                problems.append('%d positional argument(s), %d required' % (len(args), required))
+            if a_.kwarg is None:
+                bad = [k for k in kws if k not in names]
+                if bad and norm(c.func) != 'err_raiser':
+                    problems.append('keyword(s) %s not accepted' % bad)
+                elif bad:
+                    problems.append('the execution state keywords %s are not accepted' % bad[:3])
+            if problems:
+                r.violated(key, common.site_of(f, c), '`%s` builds %s with %s: TypeError is raised instead of the script error' % (norm(c)[:70], v.info.name, '; '.join(problems)), sure=True)
+            else:
+                r.ok(key, common.site_of(f, c), 'matches %s.__init__(%s)' % (v.info.name, ', '.join(pos)))
 
 
 def ranking_table(f, w):
